@@ -253,7 +253,19 @@ def _v(x):
     return getattr(x, "value", x)
 
 
-def obligations():
+def _deps(module, names, prefix, why):
+    """callee contracts this property's clauses are stated against, discharged here as well (same harness objects, other names)"""
+    out = []
+    for o in module.obligations():
+        base = o.name.split("[")[0]
+        if base in names and o.tier == "quick":
+            out.append(Obligation(o.name.replace(base.split(".")[0] + ".", prefix, 1), o.fn, kind=o.kind, functions=o.functions, bound=o.bound, max_paths=o.max_paths, params=o.params,
+                                  timeout_ms=o.timeout_ms, expect=o.expect, stubs=o.stubs, runner=o.runner, time_budget_s=o.time_budget_s,
+                                  doc=f"(callee contract, shared with {base.split('.')[0]}: {why}) " + (o.doc or "")))
+    return out
+
+
+def _own_obligations():
     return [
         Obligation("C16.get_value", ob_get_value, functions=[misc.get_value], doc="UNWRAP, path-complete over the argument kind"),
         Obligation("C16.wrapper.b", ob_wrapper, kind="bounded", bound="three ways of loading x 1..3 target() calls", functions=[pp.PinchProblem.target, pp.PinchProblem.from_json, pp.PinchProblem.load],
@@ -269,3 +281,10 @@ def obligations():
         Obligation("C16.csv_channel.b", ob_csv_channel, kind="bounded", bound="one concrete three-stream problem (smoke obligation on the installed pandas)",
                    functions=[pp.PinchProblem.load]),
     ]
+
+
+def obligations():
+    from . import C11
+    # "the same targets through the service or through the wrapper, on repeated targeting": relies on the service leaving the problem it
+    # is handed unchanged (C11's frame contract), discharged here too
+    return _own_obligations() + _deps(C11, ("C11.frame.input",), "C16.dep.", "the service does not modify the problem object the wrapper stores")
